@@ -135,7 +135,8 @@ impl ActixStream for Half {
     fn poll_read_ready(&self, cx: &mut Context<'_>) -> Poll<io::Result<Ready>> {
         let mut p = self.rx.borrow_mut();
         if !p.buf.is_empty() || p.closed || p.reset {
-            Poll::Ready(Ok(Ready::READABLE))
+            // like a socket whose peer has sent FIN: readable (data may still be queued) and read-closed
+            Poll::Ready(Ok(if p.closed { Ready::READABLE | Ready::READ_CLOSED } else { Ready::READABLE }))
         } else {
             p.reader = Some(cx.waker().clone());
             Poll::Pending
